@@ -200,9 +200,13 @@ class Run:
     def build_harness(self, area=None):
         area = area or self.area
         t = time.time()
-        d = os.path.join(BUILD, "harness")
+        # the tree under test is /repo unless --repo is given; other trees get their own build directory so that
+        # concurrent checks of different trees do not disturb each other
+        sub = "" if self.repo == "/repo" else "alt_" + hashlib.sha256(self.repo.encode()).hexdigest()[:8]
+        d = os.path.join(BUILD, sub, "harness")
+        tgt = os.path.join(BUILD, sub, "target")
         os.makedirs(d, exist_ok=True)
-        self.harness_bin = os.path.join(BUILD, "target", "release", "h_" + area)
+        self.harness_bin = os.path.join(tgt, "release", "h_" + area)
         bins = ""
         for f in sorted(os.listdir(os.path.join(VERIF, "harness", "src"))):
             if f.endswith(".rs") and f not in ("common.rs",) and not f.startswith("lib_"):
@@ -221,7 +225,7 @@ class Run:
                 flags += " --cfg verif_caphook"      # the C19 capacity hook is present in the tree under test
         except OSError:
             pass
-        env = {"CARGO_TARGET_DIR": os.path.join(BUILD, "target"), "RUSTFLAGS": flags}
+        env = {"CARGO_TARGET_DIR": tgt, "RUSTFLAGS": flags}
         cmd = ["cargo", "build", "--release", "--offline", "-q", "--bin", "h_" + area]
         rc, out, err = sh(cmd, cwd=d, timeout=1500, env=env)
         if rc != 0:
